@@ -39,7 +39,7 @@ def main():
          'level_claimed': {'category': 'model_checking',
                            'text': 'bounded symbolic execution of the real code, solver-decided: ' + text,
                            'design_ref': 'DESIGN.md 5 (%s) and 10' % c},
-         'level_note': note + '; trusted: rustc MIR of the pinned nightly, the mirsym interpreter + std models (each explored path re-executed natively with identical trace), z3',
+         'level_note': note + '; trusted: rustc MIR of the pinned nightly, the mirsym interpreter + std models (each explored path re-executed natively with identical trace), z3 5.1 (plus cvc5 1.0.3 and z3 4.8.12 for the queries z3 5.1 leaves unknown; a sat answer of theirs is re-established by z3 5.1)',
          'technique': 'symbolic execution of rustc MIR + z3, native replay',
         })
     json.dump(m, open('/verif/MANIFEST.json', 'w'), indent=1)
